@@ -385,8 +385,9 @@ def build_k1(out, variant='nothread', lib=None):
 def build_k2(out, variant='nothread', lib=None):
     if lib is None:
         lib = build_lib(out, variant)
-    return build_bin(out, variant, 'k2', ['k2.c'], lib, extra_ld=['-Wl,--wrap=ldb_versions_apply', '-Wl,--wrap=unlink'])
+    return build_bin(out, variant, 'k2', ['k2.c'], lib, extra_ld=['-Wl,--wrap=ldb_versions_apply', '-Wl,--wrap=unlink'] + GC_WRAPS)
 
+GC_WRAPS = ['-Wl,--wrap=ldb_versions_add_files', '-Wl,--wrap=ldb_get_children', '-Wl,--wrap=ldb_remove_file']
 K3_WRAPS = ['open', 'close', 'write', 'read', 'pread', 'mmap', 'fsync', 'fdatasync', 'rename', 'unlink', 'mkdir', 'link']
 def build_k3(out, variant='nothread', lib=None):
     """k2.c with the libc interposition of harness/iowrap.h (tie K3)."""
@@ -396,7 +397,7 @@ def build_k3(out, variant='nothread', lib=None):
     exe = os.path.join(out, variant, 'k3')
     cmd = [cc, '-w'] + cflags + defs + [HOOK_DEFINE, '-DK3', '-U_FORTIFY_SOURCE',
           '-I' + os.path.join(REPO, 'include'), '-I' + os.path.join(REPO, 'src'), '-I' + os.path.join(VERIF, 'harness'),
-          os.path.join(VERIF, 'harness', 'k2.c'), lib, '-Wl,--wrap=ldb_versions_apply'] + \
+          os.path.join(VERIF, 'harness', 'k2.c'), lib, '-Wl,--wrap=ldb_versions_apply'] + GC_WRAPS + \
           ['-Wl,--wrap=' + w for w in K3_WRAPS] + ['-lpthread', '-lm', '-o', exe]
     r = subprocess.run(cmd, capture_output=True, text=True)
     if r.returncode != 0:
